@@ -33,6 +33,7 @@ func init() {
 	gens["Src_csrfcmp.v"] = genGoLoopCSRFCompare
 	gens["Src_applymw.v"] = genGoLoopApplyMiddleware
 	gens["Src_ratestore.v"] = genGoLiteRateStore
+	gens["Src_servehttp.v"] = genGoLiteServeHTTP
 }
 
 // innerHandler finds the innermost function literal of shape func(c echo.Context) error inside fd.
@@ -175,6 +176,8 @@ func (g *goliteCfg) expr(e ast.Expr) (string, error) {
 			return fmt.Sprintf("EPred %s [EVar %s]", g.str("."+v.Sel.Name), g.str(id.Name)), nil
 		}
 		return "ESym " + g.str(n), nil
+	case *ast.FuncLit:
+		return "ESym \"func literal\"", nil // a closure handed on as a value (translated on its own where a theorem needs it)
 	case *ast.CompositeLit:
 		return "ESym " + g.str(lit(v)), nil // a constructed value (a map literal handed on): named by its Go spelling
 	case *ast.SliceExpr:
@@ -1344,4 +1347,40 @@ func genGoLiteRateStore(repo string) (string, error) {
 		return "", err
 	}
 	return goliteHeader + "(* middleware/rate_limiter.go: RateLimiterMemoryStore.Allow.  The map lookup, the clock and the visitor's token bucket are external\n   (input stream); the store into the map and the sweep are events; limiter.lastSeen is a cell. *)\n" + s, nil
+}
+
+func genGoLiteServeHTTP(repo string) (string, error) {
+	f, err := parseFile(repo, "echo.go")
+	if err != nil {
+		return "", err
+	}
+	fd := findFunc(f, "*Echo", "ServeHTTP")
+	if fd == nil {
+		return "", fmt.Errorf("Echo.ServeHTTP not found")
+	}
+	cfg := func() goliteCfg {
+		return goliteCfg{ignore: map[string]bool{}, cells: map[string]bool{},
+			extern: map[string]bool{"e.pool.Get": true, "h": true, "c.Handler": true}, tail: map[string]bool{"h": true}}
+	}
+	out := goliteHeader + "(* echo.go: Echo.ServeHTTP and the closure it builds when Pre middleware is installed.  The pool, the handler chain (its error) and\n   c.Handler() are external; Reset, the router lookup, the error handler and the return of the context to the pool are events. *)\n"
+	s, err := goliteFunc(fd, "serve_http", cfg())
+	if err != nil {
+		return "", err
+	}
+	out += s
+	var fl *ast.FuncLit
+	ast.Inspect(fd.Body, func(n ast.Node) bool {
+		if x, ok := n.(*ast.FuncLit); ok && fl == nil {
+			fl = x
+		}
+		return true
+	})
+	if fl == nil {
+		return "", fmt.Errorf("Echo.ServeHTTP: the routing closure for Pre middleware was not found")
+	}
+	s, err = goliteFunc(&ast.FuncDecl{Name: fd.Name, Recv: fd.Recv, Type: fl.Type, Body: fl.Body}, "serve_http_routed", cfg())
+	if err != nil {
+		return "", err
+	}
+	return out + s, nil
 }
